@@ -367,6 +367,11 @@ func (c *Constraint) matchesPermanodeTypes() []string {
 			}
 			return sb
 		case "or":
+			if len(sa) == 0 || len(sb) == 0 {
+				// One branch is not restricted to known node types:
+				// neither is the disjunction.
+				return nil
+			}
 			return append(sa, sb...)
 		}
 	}
